@@ -274,6 +274,10 @@ class EF:
                     elif c.endswith("From::from") or c.endswith("Into::into"):
                         new = (ck, cc)
                         handled = True
+                    elif c.endswith(("Result::map", "Result::and_then", "Result::inspect", "Result::inspect_err", "Result::and")) and i0 == 0:
+                        # Result::map / and_then / and keep an Err as it is (the closure only sees the Ok value)
+                        new = (ck, cc)
+                        handled = True
                     elif c.endswith("::map_err"):
                         g = fn.term_of_operand(args[1], b)
                         v = self.closure_const_variant(g)
